@@ -323,16 +323,11 @@ Section PROOF.
   Qed.
 
   (* what the caller gets: exactly todo0, each once, every node before all of its (todo) ancestors *)
-  Theorem topo_sort_correct fuel heads o :
-    NoDup heads -> incl heads todo0 ->
-    (forall y, In y todo0 -> exists h, In h heads /\ Anc h y) ->
-    run parents anc linear fuel (init anc todo0 heads heads) = Some o ->
-    NoDup o /\ (forall x, In x o <-> In x todo0) /\
-    (forall pre x post, o = pre ++ x :: post -> forall y, In y post -> ~ Anc y x).
+  Lemma init_Inv heads : NoDup heads -> incl heads todo0 ->
+    (forall y, In y todo0 -> exists h, In h heads /\ Anc h y) -> Inv (init anc todo0 heads heads).
   Proof.
-    intros NDh Hincl Hcov Hrun.
-    assert (I0 : Inv (init anc todo0 heads heads)).
-    { unfold init. constructor; cbn.
+    intros NDh Hincl Hcov.
+    unfold init. constructor; cbn.
       - rewrite map_map. cbn. rewrite map_id. exact NDh.
       - intros h A Hin. apply in_map_iff in Hin. destruct Hin as [h' [E Hh]]. inversion E; subst.
         split; [apply Hincl; exact Hh | intros y; apply anc_spec].
@@ -344,7 +339,19 @@ Section PROOF.
       - constructor.
       - intros x y [].
       - exact I.
-      - destruct heads; [left; reflexivity|right; cbn; lia]. }
+      - destruct heads; [left; reflexivity|right; cbn; lia].
+  Qed.
+
+  (* what the caller gets: exactly todo0, each once, every node before all of its (todo) ancestors *)
+  Theorem topo_sort_correct fuel heads o :
+    NoDup heads -> incl heads todo0 ->
+    (forall y, In y todo0 -> exists h, In h heads /\ Anc h y) ->
+    run parents anc linear fuel (init anc todo0 heads heads) = Some o ->
+    NoDup o /\ (forall x, In x o <-> In x todo0) /\
+    (forall pre x post, o = pre ++ x :: post -> forall y, In y post -> ~ Anc y x).
+  Proof.
+    intros NDh Hincl Hcov Hrun.
+    pose proof (init_Inv heads NDh Hincl Hcov) as I0.
     destruct (run_inv _ _ _ I0 Hrun) as [s' [I' [-> Ht]]].
     split; [apply NoDup_rev; apply I'|]. split.
     - intros x. rewrite <- in_rev, (i_part _ I' x), Ht. cbn. tauto.
